@@ -57,5 +57,8 @@ view == <<k8s, other, sec>>
 
 \* only referencing filters ever change, and only to a value their Secret held
 OnlyReferencing == \A f \in Filters : Refs[f] = "lit" => sec[f] = "literal"
+\* random walks (TLC -simulate): whole histories including steps that do not change the abstract state, which matter
+\* when the implementation keeps state of its own (an index, a cache) that the abstract state does not have
+PrintFull == (Export /\ Len(hist) = MaxLen) => PrintT(<<"SCN", ToJson([refs |-> Refs, events |-> hist])>>)
 PrintTransition == Export => PrintT(<<"SCN", ToJson([refs |-> Refs, events |-> hist'])>>)
 =============================================================================
